@@ -12,7 +12,7 @@ import (
 
 func init() {
 	register("C09", runC09, propMeta{
-		Explanation: "Decides the recover discipline and the absence of engine-level panics and unbounded loops, for all rule texts and injected data: (R1) RuleEntity.Execute — the only door from the engine into the interpreter — and the four call/assignment evaluators each register, before anything that can panic, a deferred literal that calls recover() and on a non-nil result stores a newly created error into the function's error result (the rule entry also clears the returned-flag); (R2) every goroutine literal of the product calls nothing but panic-safe workers, addResult, fmt.Sprintf, errors.New, append, mutex and WaitGroup operations, and contains no indexing, slicing, unchecked type assertion or division, so a goroutine cannot die with an unrecovered panic; (R3) every Evaluate/Execute of the interpreter is called only from package base, except RuleEntity.Execute; (R4) in the engine a value looked up with comma-ok is never used on the miss edge, every constant or len-1 index into a rule list is dominated by a length test that implies it is in range, counted indexes stay below the len they are compared with, the N-M windows are dominated by their parameter checks, and the nil-able pool master is guarded (C16-Q1); (R5) loop inventory over base, core, context, iter, engine, builder and tool: every loop is a range loop, a counted loop with a +1 counter compared to a bound, the iterator loop whose Key() advances the cursor by one and whose Next() is cursor < length, the ForStmt loop in which every iteration increments a counter and returns an error beyond maxExecuteNum, or one of two named loops (getGengine's wait loop — C17; tool.BinarySearch, whose every iteration returns or moves low/high past mid); (R6) WaitGroup counts agree with the goroutines started (A4) on one snapshot (C07-U1), so Wait cannot hang or panic; (R7) collected errors always surface (every execute method); (R8) the lock-order graph of the product is acyclic and no pool lock is held while rules run. Not decided: termination of injected host functions (assumed by the property); Go-fatal conditions recover cannot catch (stack exhaustion, concurrent map writes on host data).",
+		Explanation: "Decides the recover discipline and the absence of engine-level panics and unbounded loops, for all rule texts and injected data: (R1) RuleEntity.Execute — the only door from the engine into the interpreter — and the four call/assignment evaluators each register, before anything that can panic, a deferred literal that calls recover() and on a non-nil result stores a newly created error into the function's error result (the rule entry also clears the returned-flag); (R2) every goroutine literal of the product calls nothing but panic-safe workers, addResult, fmt.Sprintf, errors.New, append, mutex and WaitGroup operations, and contains no indexing, slicing, unchecked type assertion or division, so a goroutine cannot die with an unrecovered panic; (R3) every Evaluate/Execute of the interpreter is called only from package base, except RuleEntity.Execute; (R4) in the engine a value looked up with comma-ok is never used on the miss edge, every constant or len-1 index into a rule list is dominated by a length test that implies it is in range, counted indexes stay below the len they are compared with, the N-M windows are dominated by their parameter checks, and the nil-able pool master is guarded (C16-Q1); (R5) loop inventory over base, core, context, iter, engine, builder and tool: every loop is a range loop, a counted loop with a +1 counter compared to a bound, the iterator loop whose Key() advances the cursor by one and whose Next() is cursor < length, the ForStmt loop in which every iteration increments a counter and returns an error beyond maxExecuteNum, or one of two named loops (getGengine's wait loop — C17; tool.BinarySearch, whose every iteration returns or moves low/high past mid); (R6) WaitGroup counts agree with the goroutines started (A4) on one snapshot (C07-U1), so Wait cannot hang or panic; (R7) collected errors always surface (every execute method); (R8) the lock-order graph of the product is acyclic and no pool lock is held while rules run. (R9) a mutex locked without a covering deferred unlock is released on every return and is not held across anything that can fault on rule-controlled data (a call into reflect, through an interface or a function value, an explicit panic, an unchecked type assertion, directly or in module callees), so a recovered fault cannot leave it locked. Not decided: termination of injected host functions (assumed by the property); Go-fatal conditions recover cannot catch (stack exhaustion, concurrent map writes on host data).",
 		Assumptions: []string{"injected functions terminate", "recover() catches every panic raised by reflect and by rule evaluation"},
 		Trusted:     commonTrusted,
 	})
@@ -203,7 +203,8 @@ func runC09(c *Ctx) {
 					}
 					bad, badPos = "a slice expression", i2.Pos()
 				case *ssa.TypeAssert:
-					if !t.CommaOk {
+					if !t.CommaOk && c.Index(i2.Parent()).Origin(t) == ssa.Value(t) {
+						// (an assertion back to the type the value was made from cannot fail)
 						bad, badPos = "an unchecked type assertion", i2.Pos()
 					}
 				case *ssa.BinOp:
@@ -294,6 +295,9 @@ func runC09(c *Ctx) {
 	// R8
 	c.ruleLockOrder("R8-lock-order")
 	c.ruleLifecycle("R8-no-lock-while-rules-run", map[string]bool{"engine-call1-no-lock": true, "engine-call2-no-lock": true, "engine-call3-no-lock": true, "engine-call4-no-lock": true})
+	// R9
+	c.ruleLockPanicSafe("R9-lock-released-when-faulting")
+	c.Min("R9-lock-released-when-faulting", 20)
 }
 
 // lenLowerBound: the largest k such that guards of block b imply len(S) >= k.
@@ -731,4 +735,145 @@ func (c *Ctx) ruleLockOrder(rule string) {
 		}
 	}
 	c.Min(rule, 3)
+}
+
+// ruleLockPanicSafe (R9): a fault inside a critical section must not leave the mutex held. For every
+// mutex that is locked in a function without a deferred unlock covering the section, nothing that can
+// fault on rule-controlled data may run while it is held: no call into reflect, no call through an
+// interface or a function value (injected code), no explicit panic and no unchecked type assertion --
+// directly or inside module callees. (Runtime faults of plain Go operations are not covered.)
+func (c *Ctx) ruleLockPanicSafe(rule string) {
+	memo := map[*ssa.Function]string{}
+	var faulty func(f *ssa.Function, depth int) string
+	instrFaults := func(in ssa.Instruction, depth int) string {
+		switch t := in.(type) {
+		case *ssa.Panic:
+			return "an explicit panic"
+		case *ssa.TypeAssert:
+			if !t.CommaOk && c.Index(in.Parent()).Origin(t) == ssa.Value(t) {
+				return "an unchecked type assertion"
+			}
+			return ""
+		case *ssa.Go:
+			return ""
+		}
+		cc := callCommon(in)
+		if cc == nil {
+			return ""
+		}
+		if cc.IsInvoke() {
+			if isErrorType(cc.Value.Type()) {
+				return ""
+			}
+			return "a call through an interface (" + cc.Method.Name() + ")"
+		}
+		if _, isB := cc.Value.(*ssa.Builtin); isB {
+			return ""
+		}
+		cal := cc.StaticCallee()
+		if cal == nil {
+			return "a call through a function value"
+		}
+		if cal.Pkg == nil && cal.Signature.Recv() == nil && cal.Synthetic == "" {
+			return ""
+		}
+		path := ""
+		if cal.Pkg != nil {
+			path = cal.Pkg.Pkg.Path()
+		} else if r := cal.Signature.Recv(); r != nil {
+			if n, ok := derefType(r.Type()).(*types.Named); ok && n.Obj().Pkg() != nil {
+				path = n.Obj().Pkg().Path()
+			}
+		}
+		switch {
+		case path == "reflect":
+			return "a call into reflect (" + cal.Name() + ")"
+		case strings.HasPrefix(path, modPath):
+			if depth > 6 {
+				return "a call chain too deep to follow (" + fnName(cal) + ")"
+			}
+			if why := faulty(cal, depth+1); why != "" {
+				return fnName(cal) + ", which contains " + why
+			}
+		}
+		return ""
+	}
+	faulty = func(f *ssa.Function, depth int) string {
+		if why, ok := memo[f]; ok {
+			return why
+		}
+		memo[f] = ""
+		why := ""
+		eachInstr(f, func(in ssa.Instruction) {
+			if why == "" {
+				why = instrFaults(in, depth)
+			}
+		})
+		memo[f] = why
+		return why
+	}
+	n := 0
+	for _, f := range c.AllFns {
+		if f.Pkg == nil || f.Pkg.Pkg.Path() == pParser || !strings.HasPrefix(f.Pkg.Pkg.Path(), modPath) {
+			continue
+		}
+		x := c.Index(f)
+		ops := x.lockOps(f)
+		if len(ops) == 0 {
+			continue
+		}
+		deferred := map[string][]ssa.Instruction{}
+		for _, op := range ops {
+			if op.defer_ && (op.kind == "Unlock" || op.kind == "RUnlock") {
+				deferred[op.mutex] = append(deferred[op.mutex], op.in)
+			}
+		}
+		covered := func(m string, at ssa.Instruction) bool {
+			for _, d := range deferred[m] {
+				if domInstr(d, at) {
+					return true
+				}
+			}
+			return false
+		}
+		doneMutex := map[string]bool{}
+		for _, op := range ops {
+			if op.defer_ || (op.kind != "Lock" && op.kind != "RLock") || doneMutex[op.mutex] {
+				continue
+			}
+			doneMutex[op.mutex] = true
+			n++
+			key := fmt.Sprintf("%s#%s", fnName(f), op.mutex)
+			bad, badPos := "", op.in.Pos()
+			eachInstr(f, func(in ssa.Instruction) {
+				if bad != "" {
+					return
+				}
+				if typ, _, _, ok := syncCall(in); ok && typ != "" {
+					return
+				}
+				if _, isDefer := in.(*ssa.Defer); isDefer {
+					return
+				}
+				if _, held := x.mayHeldAt(in)[op.mutex]; !held || covered(op.mutex, in) {
+					return
+				}
+				if why := instrFaults(in, 0); why != "" {
+					bad, badPos = why, in.Pos()
+				}
+			})
+			c.Check(rule, key, bad == "", badPos, "%s is held without a deferred unlock across %s: a fault there leaves the mutex locked and every later access blocks forever", op.mutex, bad)
+			// and every ordinary way out of the function releases it
+			for _, op2 := range ops {
+				if op2.mutex != op.mutex || op2.defer_ || (op2.kind != "Lock" && op2.kind != "RLock") {
+					continue
+				}
+				if !x.releasedOnAllExits(op2) {
+					c.Check(rule, key+"/released-on-every-exit", false, op2.in.Pos(), "%s locked here can reach a return of %s without being unlocked: the next access blocks forever", op.mutex, fnName(f))
+					break
+				}
+			}
+		}
+	}
+	_ = n
 }
